@@ -14,28 +14,44 @@ COQ_CASE_TYPE = "case"
 COQ_RUN = "run_case"
 TABLE_CONSTRUCTS = ["agent_first_id", "deregister_order", "register_order", "remove_suppresses_keyerror", "registry_skeleton"]
 RULE = ("histories = 1-3 coexisting models (more via new_model) + 4-40 ops out of: constructor call, create_agents "
-        "(scalar / list / tuple / ndarray / str argument, positional or keyword, length = n and != n, n in -1..4), "
-        "agent.remove (also of removed agents), model.deregister_agent, remove_all_agents, in-place shuffle/sort of "
-        "model.agents and of agents_by_type[c], and do/map/shuffle_do activations of model.agents or agents_by_type[c] "
-        "whose callbacks remove themselves/others, create agents (also for another model) or call remove_all_agents; "
-        "five agent classes (A, A>B, A>B>C built with type(), D, mesa.Agent itself); every view of every model is "
-        "observed after every op; non-trivial = at least 3 ops, one creation and one removal or activation; "
-        "distinct = by SHA1 of the history")
+        "(scalar / list / tuple / ndarray / str argument, positional or keyword, length = n and != n, n in -1..4; equal argument "
+        "specifications share ONE object across calls and models and must come back unchanged), agent.remove (also of removed "
+        "agents), model.deregister_agent, remove_all_agents, in-place shuffle/sort of model.agents and of agents_by_type[c], "
+        "do/map/shuffle_do activations of model.agents or agents_by_type[c] whose callbacks remove themselves/others (also agents of "
+        "other models), create agents (also for another model) or call remove_all_agents; every 7th history also mutates "
+        "model.agents through the AgentSet API (discard/remove/select(inplace=True) with 6 filter forms); every 5th keeps an "
+        "abandoned live iterator over every set before each op; eleven agent classes: A, A>B, A>B>C built with type(), D, mesa.Agent "
+        "itself, four classes overriding remove() (work then super late; super then work; no super; super then remove() of "
+        "ANOTHER agent of the model, chains and cycles), a class with falsy instances, a class with a mixin after mesa.Agent in "
+        "the MRO; a model with agents that came and went before the history (prior history in the process); plus an "
+        "oracle-only stream (1/5 more histories, not evaluated by the Z-valued model): twelve exotic payload objects (None, float, "
+        "str, tuple, bool, 2**70, numpy scalar, 0-d array, frozenset, dict, Decimal, Fraction) through the constructor and "
+        "create_agents, constructors raising before / after super().__init__(), callbacks raising in the middle of an activation, "
+        "n = 30; every view of every model is observed after every op and the oracle is evaluated after every atomic action "
+        "(not inside a running remove()/remove_all_agents()); non-trivial = at least 3 ops, one creation and one removal or "
+        "activation; distinct = by SHA1 of the history; enumerator (thorough / on a break): all sequences of length <= 3 (4) over 21 ops")
 TRUSTED_BASE = [
-    "Coq 8.16.1 kernel (coqc); vm_compute used for evaluating the model in the correspondence and for the examples",
+    "Coq 8.16.1 kernel (coqc); vm_compute used for evaluating the model in the correspondence, for the examples and the two refutation witnesses; coqchk in the thorough tier",
     "no axioms: Print Assumptions reports 'Closed under the global context' for every C02 theorem",
-    "harness/tables/registry.py (T1) extracting the first id, the statement order of register_agent/deregister_agent and the shape of Agent.remove/remove_all_agents",
-    "harness/props/C02.py driver+observer and the Gallina literal printer (T2, differential testing, not a proof)",
+    "harness/tables/registry.py (T1): first id, statement ORDER of register_agent / deregister_agent (translated), and the statement "
+    "skeletons of Agent.__init__, Agent.create_agents, Agent.remove, Model.remove_all_agents and the registry part of Model.__init__, "
+    "compared modulo local names, docstrings, annotations, logger calls and message texts; C02_source_first_id / "
+    "C02_source_statement_order prove generated = what Model/Registry.v hard-codes",
+    "harness/props/C02.py driver+observer, the shadow-history oracle and the Gallina literal printer (T2, differential testing, not a proof)",
     "Model/Registry.v is a hand transcription of Agent.__init__/remove/create_agents and Model.register_agent/"
-    "deregister_agent/remove_all_agents, AgentSet.do/shuffle_do loop; dict and WeakKeyDictionary = insertion-ordered "
-    "key list; the harness keeps a strong reference to every agent, so no weak reference dies",
+    "deregister_agent/remove_all_agents, the AgentSet.do/shuffle_do loop and AgentSet.discard/remove/select(inplace) on model.agents; dict "
+    "and WeakKeyDictionary = insertion-ordered key list; Python's dynamic dispatch of remove() = a fixed table of four overriding classes",
     "Uint63 primitive hash only in scratch Cases files, never under a theorem",
 ]
 ASSUMPTIONS = [
-    "user code does not mutate model.agents / agents_by_type[...] through the AgentSet API other than by in-place "
-    "shuffle/sort (the class docstring rules that out) and does not call register_agent directly",
-    "in-place shuffle/sort outcomes are inputs to the model, checked to be permutations",
-    "every agent is strongly referenced by the harness for the whole history (weak-reference death is C04's subject)",
+    "the harness keeps a strong reference to every agent for the whole history (weak-reference death is C04's subject)",
+    "in-place shuffle/sort outcomes, select(inplace=True) outcomes and shuffle_do orders are inputs to the model, checked to be "
+    "permutations / subsequences",
+    "overriding remove() methods are the four modelled shapes (their extra work: constructing agents for self.model, or remove() of "
+    "another agent of the SAME model that is still in model.agents); an override touching another model, and user calls of "
+    "register_agent, are outside the model",
+    "exactness of model.agents is claimed for histories without AgentSet-API removal from model.agents (C02_agents_exact carries the "
+    "hypothesis setapi_free; with such removals the weaker C02_agents_sound_any_history holds and the exactness statement is refuted by a witness)",
     "model objects hash by identity (the _ids table is keyed by the model object)",
 ]
 SOURCE_FUNCS = [("mesa/agent.py", "Agent.__init__"), ("mesa/agent.py", "Agent.remove"), ("mesa/agent.py", "Agent.create_agents"),
@@ -1062,19 +1078,31 @@ def nontrivial(case):
             and any(k in ("remove", "remove_all", "activate", "deregister") for k in ks))
 
 
-LEVEL_TEXT = ("Machine-checked Coq theorems over a Gallina transcription of Agent.__init__/remove/create_agents and "
-              "Model.register_agent/deregister_agent/remove_all_agents: for every history of the modelled operations on any "
-              "number of coexisting models (constructor, create_agents, remove, deregister, remove_all_agents, in-place "
-              "reorders, activations whose callbacks create and remove agents) an invariant holds that gives: the hard-reference "
-              "dict equals the created-and-not-removed agents in creation order, model.agents and every agents_by_type "
-              "set are permutations of it (equal to it while nothing was reordered in place), every class with a live agent "
-              "is a key, unique_ids per model are 1,2,3,... in creation order (hence distinct, never reused), removal is "
-              "idempotent and clears every view, and an operation on one model leaves every other model's registry and "
-              "id counter untouched. The model is tied to the code by differential evaluation (vm_compute) on random "
-              "and enumerated histories (T2); an independent shadow-history oracle states the property on the "
-              "implementation and supplies the failing input.")
-LEVEL_NOTE = ("Theorems are about the model; weak-reference death, direct mutation of model.agents through the AgentSet "
-              "API and register_agent called by user code are outside it. Trusted: Coq kernel, the driver/observer, "
-              "CPython dict/WeakKeyDictionary ordering as modelled. No axioms.")
-TECHNIQUE = "Coq proof (state invariant by induction over histories, closed under global context) + vm_compute correspondence"
+LEVEL_TEXT = ("27 machine-checked Coq theorems (+ 6 examples) over a Gallina transcription of the registry code (Model/Registry.v, "
+              "Proofs/RegistryProofs.v, RegistryMore.v, RegistryProjection.v), all for EVERY history of the modelled operations on any number "
+              "of coexisting models, proved by a state invariant (strict / weak by a flag) preserved by the two atomic actions and lifted "
+              "through every loop by a generic closure section: the hard-reference dict equals the created-and-not-removed agents in "
+              "creation order; agents_by_type groups them by exact class and agent_types is EXACTLY the classes ever instantiated, in "
+              "order of first creation (a class keeps its key with an empty set); model.agents is a duplicate-free permutation of the "
+              "live agents - equal as a list while nothing was reordered in place - for histories without AgentSet-API removal, and "
+              "never holds a removed/foreign/duplicate agent in any history; unique_ids per model are 1,2,3,... in creation order, "
+              "never reused; Agent.remove is idempotent in every state and clears every view; remove_all_agents restores full exactness "
+              "after anything done to model.agents (absent overriding remove()); coexisting models: frame theorems, an activation frame "
+              "theorem, and the PROJECTION theorem (each model's final registry and id counter = fold of a one-model step over the "
+              "events addressed to it, events of callbacks, create_agents, remove_all_agents and overriding remove() methods "
+              "included); two refutation witnesses (exactness under AgentSet-API removal; emptiness after remove_all_agents with "
+              "overriding remove()). Tied to the code by T1 (tables and statement skeletons re-read from the source on every run) and "
+              "by differential evaluation under vm_compute on random and enumerated histories (T2); an independent shadow-history "
+              "oracle states the property on the implementation, also on an oracle-only stream of exotic values and error paths, and "
+              "supplies the failing input.")
+LEVEL_NOTE = ("Theorems are about the model. Not modelled: weak-reference death (harness keeps agents alive), remove() overrides beyond "
+              "the four shapes or touching another model, user calls of register_agent; argument distribution of create_agents is in "
+              "the model and the correspondence but not an oracle clause (the statement does not speak about it). No defect of the "
+              "unchanged tree in this area; observations: agents_by_type keeps empty sets for extinct classes (proved), create_agents "
+              "refuses a 0-d ndarray with TypeError before constructing anything, deregister_agent on an agent discarded from "
+              "model.agents raises KeyError after updating two structures (user-inflicted). Trusted: Coq kernel, the T1 extractor, the "
+              "driver/observer, CPython dict/WeakKeyDictionary ordering as modelled. No axioms.")
+TECHNIQUE = ("Coq proof (strict/weak state invariant and trace projection by induction over histories, fuel-indexed recursion for chained "
+             "remove() overrides; closed under the global context) + source-regenerated tables and statement skeletons (T1) + vm_compute "
+             "correspondence and shadow-history oracle (T2)")
 DESIGN_REF = "DESIGN.md section 4, C02"
